@@ -546,8 +546,8 @@ thread_local! {
 }
 
 /// Run `f`, turning a panic of the code under test into data (message + source location).
-pub fn guarded<T>(f: impl FnOnce() -> T + std::panic::UnwindSafe) -> Result<T, String> {
-    match std::panic::catch_unwind(f) {
+pub fn guarded<T>(f: impl FnOnce() -> T) -> Result<T, String> {
+    match std::panic::catch_unwind(std::panic::AssertUnwindSafe(f)) {
         Ok(v) => Ok(v),
         Err(e) => {
             let msg = if let Some(s) = e.downcast_ref::<&str>() {
